@@ -191,6 +191,12 @@ def fine_c13(tier, rng):
         s.append(conc.Scn("fj%d" % i, "jdk", list(range(1, npre + 1)), ths, "rand %d %d" % (scale(tier, 400, 4000), rng.randint(1, 1 << 30))))
     return s
 
+def fine_c19(tier, rng):
+    """statement-level interleavings of the mutex queue (monitors only): plain accesses made after the lock was released"""
+    s = []
+    s += gen_family(rng, "fm", "mutex", ["k", "p", "o", "k", "p", "e", "z"], scale(tier, 16, 120), [2, 3], [2, 3], lambda r: "rand %d %d" % (scale(tier, 400, 4000), r.randint(1, 1 << 30)), prefill_max=4)
+    return s
+
 def fine_c01(tier, rng):
     """statement-level interleavings (monitors only): catches races on plain fields"""
     s = []
